@@ -181,30 +181,34 @@ Proof.
   unfold register_pending, append_pending in E. destruct (is_pending s t r); [inversion E; reflexivity|].
   destruct (is_labeled s t r); [discriminate|]. inversion E. reflexivity.
 Qed.
+Lemma report_core_failed_eq cfg st t0 r v cont st' d : report_core cfg st t0 r v cont = Ok (st', d) -> failed (srch st') = failed (srch st).
+Proof.
+  unfold report_core. destruct (on_trial_result cfg st t0 r v cont) as [[st1 d1]|] eqn:E; cbn [bind]; [|discriminate].
+  intro H. inversion H; subst. assert (H1 : failed (srch st1) = failed (srch st)).
+  { unfold on_trial_result in E. destruct (find t0 (trials st)) as [rec|]; [|discriminate].
+    destruct (dec rec); try (inversion E; subst; reflexivity).
+    destruct (on_task_report cfg rec r cont) as [[rec1 ti]|]; cbn [bind] in E; [|discriminate].
+    destruct (ignore_data ti); [inversion E; subst; reflexivity|].
+    destruct (update_searcher _ _ _ _ _ _) as [[du s1]|] eqn:EU; cbn [bind] in E; [|discriminate].
+    destruct (lur_step _ _ _) as [[du2 rec3]|]; cbn [bind] in E; [|discriminate]. inversion E; subst. cbn [srch].
+    assert (Hs1 : failed s1 = failed (srch st)).
+    { unfold update_searcher in EU.
+      destruct (if fst (us_plan cfg r ti) then us_internal cfg (srch st) rec1 t0 else Ok (srch st)) as [sa|] eqn:EA; cbn [bind] in EU; [|discriminate].
+      destruct (register_all sa t0 _) as [sb|] eqn:EB; cbn [bind] in EU; [|discriminate]. inversion EU; subst.
+      rewrite (register_all_failed _ _ _ _ EB). destruct (fst (us_plan cfg r ti)); [|inversion EA; reflexivity].
+      unfold us_internal in EA. destruct (pol cfg); try (inversion EA; reflexivity).
+      destruct (reported rec1) as [[? ?]|]; [|inversion EA; reflexivity]. destruct (negb _); [|inversion EA; reflexivity].
+      unfold remove_case in EA. destruct (is_labeled _ _ _); [inversion EA; reflexivity | discriminate]. }
+    destruct du2; cbn [label failed]; exact Hs1. }
+  destruct d1; auto; unfold on_trial_remove; destruct (find t0 (trials st1)); auto.
+Qed.
+
 Lemma step_failed_mono cfg st e st' d t : step cfg st e = Ok (st', d) -> In t (failed (srch st)) -> In t (failed (srch st')).
 Proof.
-  destruct e as [t0 b|t0 r v cont|t0 b|t0 r v|t0]; cbn [step].
+  destruct e as [t0 b|t0 r v cont|t0 b|t0 r v|t0|t0 r v]; cbn [step];
+    try (intros H Hin; rewrite (report_core_failed_eq _ _ _ _ _ _ _ _ H); exact Hin).
   - unfold on_start. destruct (find t0 (trials st)); [discriminate|]. destruct (register_all _ _ _) as [s1|] eqn:E; cbn [bind]; [|discriminate].
     intro H. inversion H; subst. cbn. rewrite (register_all_failed _ _ _ _ E). auto.
-  - set (st0 := {| srch := srch st; trials := trials st; reps := _ |}).
-    destruct (on_trial_result cfg st0 t0 r v cont) as [[st1 d1]|] eqn:E; cbn [bind]; [|discriminate].
-    intros H Hin. inversion H; subst. assert (H1 : In t (failed (srch st1))).
-    { unfold on_trial_result in E. destruct (find t0 (trials st0)) as [rec|]; [|discriminate].
-      destruct (dec rec); try (inversion E; subst; exact Hin).
-      destruct (on_task_report cfg rec r cont) as [[rec1 ti]|]; cbn [bind] in E; [|discriminate].
-      destruct (ignore_data ti); [inversion E; subst; exact Hin|].
-      destruct (update_searcher _ _ _ _ _ _) as [[du s1]|] eqn:EU; cbn [bind] in E; [|discriminate].
-      destruct (lur_step _ _ _) as [[du2 rec3]|]; cbn [bind] in E; [|discriminate]. inversion E; subst. cbn [srch].
-      assert (Hs1 : failed s1 = failed (srch st)).
-      { unfold update_searcher in EU. cbn [srch st0] in EU.
-        destruct (if fst (us_plan cfg r ti) then us_internal cfg (srch st) rec1 t0 else Ok (srch st)) as [sa|] eqn:EA; cbn [bind] in EU; [|discriminate].
-        destruct (register_all sa t0 _) as [sb|] eqn:EB; cbn [bind] in EU; [|discriminate]. inversion EU; subst.
-        rewrite (register_all_failed _ _ _ _ EB). destruct (fst (us_plan cfg r ti)); [|inversion EA; reflexivity].
-        unfold us_internal in EA. destruct (pol cfg); try (inversion EA; reflexivity).
-        destruct (reported rec1) as [[? ?]|]; [|inversion EA; reflexivity]. destruct (negb _); [|inversion EA; reflexivity].
-        unfold remove_case in EA. destruct (is_labeled _ _ _); [inversion EA; reflexivity | discriminate]. }
-      destruct du2; cbn [label failed]; rewrite Hs1; exact Hin. }
-    destruct d1; auto; unfold on_trial_remove; destruct (find t0 (trials st1)); auto.
   - unfold on_resume. destruct (sty cfg); [discriminate|]. destruct (find t0 (trials st)); [|discriminate].
     destruct (paused_at _ _); [|discriminate]. destruct (negb _); [discriminate|]. destruct (decision_eqb _ _); [discriminate|].
     destruct (register_all _ _ _) as [s1|] eqn:E; cbn [bind]; [|discriminate].
@@ -337,28 +341,10 @@ Qed.
 
 Lemma step_failed_eq cfg st e st' d : step cfg st e = Ok (st', d) -> (forall t, e <> Fail t) -> failed (srch st') = failed (srch st).
 Proof.
-  destruct e as [t0 b|t0 r v cont|t0 b|t0 r v|t0]; cbn [step]; intros H Hnf.
+  destruct e as [t0 b|t0 r v cont|t0 b|t0 r v|t0|t0 r v]; cbn [step]; intros H Hnf;
+    try (exact (report_core_failed_eq _ _ _ _ _ _ _ _ H)).
   - unfold on_start in H. destruct (find t0 (trials st)); [discriminate|]. destruct (register_all _ _ _) as [s1|] eqn:E; cbn [bind] in H; [|discriminate].
     inversion H; subst. cbn. apply (register_all_failed _ _ _ _ E).
-  - set (st0 := {| srch := srch st; trials := trials st; reps := _ |}) in H.
-    destruct (on_trial_result cfg st0 t0 r v cont) as [[st1 d1]|] eqn:E; cbn [bind] in H; [|discriminate].
-    inversion H; subst. assert (H1 : failed (srch st1) = failed (srch st)).
-    { unfold on_trial_result in E. destruct (find t0 (trials st0)) as [rec|]; [|discriminate].
-      destruct (dec rec); try (inversion E; subst; reflexivity).
-      destruct (on_task_report cfg rec r cont) as [[rec1 ti]|]; cbn [bind] in E; [|discriminate].
-      destruct (ignore_data ti); [inversion E; subst; reflexivity|].
-      destruct (update_searcher _ _ _ _ _ _) as [[du s1]|] eqn:EU; cbn [bind] in E; [|discriminate].
-      destruct (lur_step _ _ _) as [[du2 rec3]|]; cbn [bind] in E; [|discriminate]. inversion E; subst. cbn [srch].
-      assert (Hs1 : failed s1 = failed (srch st)).
-      { unfold update_searcher in EU. cbn [srch st0] in EU.
-        destruct (if fst (us_plan cfg r ti) then us_internal cfg (srch st) rec1 t0 else Ok (srch st)) as [sa|] eqn:EA; cbn [bind] in EU; [|discriminate].
-        destruct (register_all sa t0 _) as [sb|] eqn:EB; cbn [bind] in EU; [|discriminate]. inversion EU; subst.
-        rewrite (register_all_failed _ _ _ _ EB). destruct (fst (us_plan cfg r ti)); [|inversion EA; reflexivity].
-        unfold us_internal in EA. destruct (pol cfg); try (inversion EA; reflexivity).
-        destruct (reported rec1) as [[? ?]|]; [|inversion EA; reflexivity]. destruct (negb _); [|inversion EA; reflexivity].
-        unfold remove_case in EA. destruct (is_labeled _ _ _); [inversion EA; reflexivity | discriminate]. }
-      destruct du2; cbn [label failed]; exact Hs1. }
-    destruct d1; auto; unfold on_trial_remove; destruct (find t0 (trials st1)); auto.
   - unfold on_resume in H. destruct (sty cfg); [discriminate|]. destruct (find t0 (trials st)); [|discriminate].
     destruct (paused_at _ _); [|discriminate]. destruct (negb _); [discriminate|]. destruct (decision_eqb _ _); [discriminate|].
     destruct (register_all _ _ _) as [s1|] eqn:E; cbn [bind] in H; [|discriminate].
@@ -385,7 +371,7 @@ Lemma step_FailedIdle cfg st e st' d : wf_config cfg = true -> Inv cfg st -> Fai
 Proof.
   intros WF HI HJ Hl Hfr HS t Hin.
   assert (Hcase : (e = Fail t /\ ~ In t (failed (srch st))) \/ In t (failed (srch st))).
-  { destruct e as [t0 b|t0 r v cont|t0 b|t0 r v|t0];
+  { destruct e as [t0 b|t0 r v cont|t0 b|t0 r v|t0|t0 r v];
       try (right; rewrite <- (step_failed_eq _ _ _ _ _ HS); [exact Hin | intros; discriminate]).
     cbn [step] in HS. inversion HS; subst. unfold on_trial_error in Hin.
     assert (Hin' : In t (failed (evaluation_failed (srch st) t0))) by (destruct (find t0 (trials st)); exact Hin).
@@ -404,7 +390,11 @@ Proof.
   - destruct (HJ t Hold) as [rec [Hf [Hd Hp]]].
     destruct (Z.eq_dec t (trial_of e)) as [Heq|Hne].
     + (* no event other than a further failure is legal for a failed trial *)
-      destruct e as [t0 b|t0 r v cont|t0 b|t0 r v|t0]; cbn [trial_of] in Heq; subst t0; cbn [legal_b] in Hl.
+      destruct e as [t0 b|t0 r v cont|t0 b|t0 r v|t0|t0 r v]; cbn [trial_of] in Heq; subst t0; cbn [legal_b] in Hl.
+      6:{ (* a late report of the failed trial: still not running, rung entries untouched *)
+          destruct (own_late cfg st t r v rec HI Hf Hd) as [ES [_ _]]. rewrite ES in HS. inversion HS; subst.
+          unfold on_trial_remove. rewrite Hf. cbn [trials]. exists (cleanup_rec rec PAUSE).
+          split; [apply find_upd_same|]. split; [cbn; discriminate | exact Hp]. }
       * rewrite Hf in Hl. discriminate.
       * rewrite Hf in Hl. apply andb_true_iff in Hl as [Hl _]. destruct (dec rec); cbn in Hl; congruence.
       * rewrite (FailedIdle_no_resume cfg st t b HJ Hold) in Hl || (pose proof (FailedIdle_no_resume cfg st t b HJ Hold) as HN; cbn [legal_b] in HN; rewrite HN in Hl). discriminate.
@@ -1178,30 +1168,34 @@ Lemma step_known cfg st e st' d : wf_config cfg = true -> step cfg st e = Ok (st
 Proof.
   intros WF HS t Ht. destruct (Z.eq_dec t (trial_of e)) as [->|Hne].
   2:{ destruct (step_same_for cfg WF st e st' d t HS) as [_ HF]; [destruct e; exact Hne|]. rewrite HF. exact Ht. }
-  destruct e as [t0 b|t0 r v cont|t0 b|t0 r v|t0]; cbn [trial_of step] in *.
-  - unfold on_start in HS. destruct (find t0 (trials st)); [discriminate | congruence].
-  - set (st0 := {| srch := srch st; trials := trials st; reps := _ |}) in HS.
-    destruct (on_trial_result cfg st0 t0 r v cont) as [[st1 d1]|] eqn:E; cbn [bind] in HS; [|discriminate].
-    inversion HS; subst. assert (H1 : find t0 (trials st1) <> None).
-    { unfold on_trial_result in E. cbn [trials st0] in E. destruct (find t0 (trials st)) as [rec|] eqn:EF; [|discriminate].
-      destruct (dec rec); try (inversion E; subst; cbn; congruence).
+  assert (Hcore : forall st0 t0 r v cont, trials st0 = trials st -> report_core cfg st0 t0 r v cont = Ok (st', d) ->
+            find t0 (trials st) <> None -> find t0 (trials st') <> None).
+  { intros st0 t0 r v cont Etr HC Hk. unfold report_core in HC.
+    destruct (on_trial_result cfg st0 t0 r v cont) as [[st1 d1]|] eqn:E; cbn [bind] in HC; [|discriminate].
+    inversion HC; subst. assert (H1 : find t0 (trials st1) <> None).
+    { unfold on_trial_result in E. rewrite Etr in E. destruct (find t0 (trials st)) as [rec|] eqn:EF; [|discriminate].
+      destruct (dec rec); try (inversion E; subst; rewrite Etr; congruence).
       destruct (on_task_report cfg rec r cont) as [[rec1 ti]|]; cbn [bind] in E; [|discriminate].
       destruct (ignore_data ti); [inversion E; subst; cbn; rewrite find_upd_same; discriminate|].
       destruct (update_searcher _ _ _ _ _ _) as [[du s1]|]; cbn [bind] in E; [|discriminate].
       destruct (lur_step _ _ _) as [[du2 rec3]|]; cbn [bind] in E; [|discriminate].
       inversion E; subst; cbn; rewrite find_upd_same; discriminate. }
-    destruct d1; auto; unfold on_trial_remove; destruct (find t0 (trials st1)) eqn:EF; try congruence; cbn; rewrite find_upd_same; discriminate.
+    destruct d1; auto; unfold on_trial_remove; destruct (find t0 (trials st1)) eqn:EF; try congruence; cbn; rewrite find_upd_same; discriminate. }
+  destruct e as [t0 b|t0 r v cont|t0 b|t0 r v|t0|t0 r v]; cbn [trial_of step] in *.
+  - unfold on_start in HS. destruct (find t0 (trials st)); [discriminate | congruence].
+  - eapply Hcore; [|exact HS|exact Ht]. reflexivity.
   - unfold on_resume in HS. destruct (sty cfg); [discriminate|]. destruct (find t0 (trials st)) as [rec|]; [|discriminate].
     destruct (paused_at _ _); [|discriminate]. destruct (negb _); [discriminate|]. destruct (decision_eqb _ _); [discriminate|].
     destruct (register_all _ _ _); cbn [bind] in HS; [|discriminate]. inversion HS; subst. cbn. rewrite find_upd_same. discriminate.
   - unfold on_trial_complete in HS. destruct (find t0 (trials st)) as [rec|]; cbn [bind] in HS; [|discriminate]. inversion HS; subst.
     cbn. rewrite find_upd_same. discriminate.
   - inversion HS; subst. unfold on_trial_error. destruct (find t0 (trials st)) eqn:EF; [|congruence]. cbn. rewrite find_upd_same. discriminate.
+  - eapply Hcore; [|exact HS|exact Ht]. reflexivity.
 Qed.
 
 Lemma step_failed_subset cfg st e st' d t : step cfg st e = Ok (st', d) -> In t (failed (srch st')) -> In t (failed (srch st)) \/ e = Fail t.
 Proof.
-  intros HS Hin. destruct e as [t0 b|t0 r v cont|t0 b|t0 r v|t0];
+  intros HS Hin. destruct e as [t0 b|t0 r v cont|t0 b|t0 r v|t0|t0 r v];
     try (left; rewrite <- (step_failed_eq _ _ _ _ _ HS); [exact Hin | intros; discriminate]).
   cbn [step] in HS. inversion HS; subst. unfold on_trial_error in Hin.
   assert (Hin' : In t (failed (evaluation_failed (srch st) t0))) by (destruct (find t0 (trials st)); exact Hin).
